@@ -167,8 +167,12 @@ defjvp(
 )
 defjvp(
     anp.linspace,
-    lambda g, ans, start, stop, *args, **kwargs: anp.linspace(g, 0, *args, **kwargs),
-    lambda g, ans, start, stop, *args, **kwargs: anp.linspace(0, g, *args, **kwargs),
+    lambda g, ans, start, stop, *args, **kwargs: match_complex(
+        ans, anp.linspace(g + anp.zeros(anp.shape(stop)), 0, *args, **kwargs)
+    ),
+    lambda g, ans, start, stop, *args, **kwargs: match_complex(
+        ans, anp.linspace(0, g + anp.zeros(anp.shape(start)), *args, **kwargs)
+    ),
 )
 
 
